@@ -51,16 +51,33 @@ def enumerate_cases(tier, seed):
     specs, _ = g.enumerate_exprs(tier)
     maxd = 1 if tier == "quick" else 2
     leaves = g.dedupe([s for s in specs if "c" not in s] + EXTRA_LEAVES)
-    exprs = g.dedupe(leaves + [{"k": "Invert", "c": s} for s in leaves] + [s for s in specs if 0 < g.info(s).depth <= maxd])
+    comps = [s for s in specs if 0 < g.info(s).depth <= maxd]
+    if tier == "quick":
+        # NaN-in-the-unselected-branch defects live in the leaves that branch on values: every composition containing one
+        # of them is kept, of the purely smooth compositions two per (combinator, option)
+        branchy = ("RQS", "LeakyTanh", "Planar", "MAF", "Coupling", "BNAF", "Exp", "SoftPlus", "Tanh")
+        keep, seen_k = [], {}
+        for s_ in comps:
+            if any(f'"k":"{b_}"' in g.canon(s_) for b_ in ("RQS", "LeakyTanh", "Planar", "MAF", "Coupling", "BNAF")):
+                key = (g._cls(s_),)
+                lim = 1
+            else:
+                key = (s_["k"], s_.get("mode"), s_.get("axis"), (s_.get("idx") or {}).get("t"))
+                lim = 2
+            seen_k[key] = seen_k.get(key, 0) + 1
+            if seen_k[key] <= lim:
+                keep.append(s_)
+        comps = keep
+    exprs = g.dedupe(leaves + [{"k": "Invert", "c": s} for s in leaves] + comps)
     cases = []
     for s in exprs:
         ii = g.info(s)
         if not ii.inv:
             continue  # log_prob needs the inverse direction
         shallow = "c" not in s or (s["k"] == "Invert" and "c" not in s["c"])
-        bases = ["normal", "studentt"] if shallow else ["normal"]
+        bases = ["normal", "studentt"] if (shallow and "c" not in s) else ["normal"]
         for base in bases:
-            for x64 in ((True, False) if shallow else (True,)):
+            for x64 in ((True, False) if (shallow and base == "normal") else (True,)):
                 cases.append({"id": f"{'f64' if x64 else 'f32'}|{base}|" + g.canon(s), "spec": s, "base": base, "x64": x64,
                               "tier": tier, "seed": seed})
     for f in c01.FACTORIES:
@@ -157,7 +174,8 @@ def run_case(case):
             viols.append({"sig": sig, "msg": msg, "detail": detail})
 
     states = [(lv, 0) for lv in levels]
-    if "factory" not in case and (case["spec"].get("k") == "RQS" or (case["spec"].get("k") == "Invert" and case["spec"]["c"].get("k") == "RQS")):
+    if "factory" not in case and case["base"] == "normal" and bt.np_dtype() == np.float64 and (
+            case["spec"].get("k") == "RQS" or (case["spec"].get("k") == "Invert" and case["spec"]["c"].get("k") == "RQS")):
         # splines: the unselected branch of the interval test depends on the knot parameters, so several trained states (levels 0-3 x 3 parameter patterns) are tried
         states = [(lv, sd) for lv in (0, 1, 2, 3) for sd in range(3 if lv else 1)]
     for level, salt_ in states:
